@@ -52,6 +52,11 @@ SPECIAL = [
                                 ["h", "or", ["g", "a"], True], ["i", "not", ["h"], False], ["j", "xor", ["i", "b"], True]]},
     # cyclic
     {"name": "loop", "nodes": [["a", "input", [], False], ["p", "and", ["q", "a"], False], ["q", "or", ["p", "a"], True]]},
+    # a loop plus a gate that feeds itself (acyclic_unroll rejects it)
+    {"name": "selfloop", "nodes": [["a", "input", [], False], ["g1", "and", ["g2", "a"], False], ["g2", "or", ["g1", "a"], True],
+                                   ["s", "xor", ["s", "a"], True]]},
+    # constants only, no primary input (the bench writer needs an input for its constant idiom)
+    {"name": "konst", "nodes": [["k0", "0", [], False], ["k1", "1", [], False], ["g", "nand", ["k0", "k1"], True]]},
     # x constant and an escaped name
     {"name": "esc", "nodes": [["a", "input", [], False], ["kx", "x", [], False], ["\\n[0]", "and", ["a", "kx"], True]]},
 ]
